@@ -344,11 +344,6 @@ def make_trace(tid, conc, obs):
             "ev": [{"a": "Doc", "D": obs["D"]}, {"a": "Units", "D": obs["D"], "U": obs["U"]}]}
 
 
-def strip(traces):
-    """The 'conc' entry is driver bookkeeping (bytes-free, but not for TLC)."""
-    return traces
-
-
 def binding_self_check(ctx, traces):
     """Corrupt one field of recorded observations: TLC must reject every corrupted trace (the specification,
     not the harness, is what decides).  Uses PPTX traces (all six fields are MUSTs there) that the strict validation accepts."""
@@ -476,7 +471,7 @@ def run(ctx):
             for k, c in enumerate(chosen):
                 concs.append(concretise(c["case"], fmt, rng))
                 meta.append((f"{fmt}:{fam}:{k}", c["out"]))
-    nrand = 600 if ctx.thorough else 80
+    nrand = 1000 if ctx.thorough else 80
     for fam, fmts in FAMILY.items():
         for fmt in fmts:
             if only and fmt not in only:
